@@ -228,6 +228,9 @@ type TXPlan struct {
 	Max     uint16   `json:"max,omitempty"`
 	CallbackFailAt int `json:"cb_fail_at,omitempty"` // retry callback returns an error on its n-th call (0 = never)
 	CancelAtNs int64 `json:"cancel_at_ns,omitempty"` // ctx cancel (0 = never)
+	// Pauses: [from, to) windows of virtual time in which RetryTransaction.Paused reports true (the
+	// peer cannot answer: delays that expire meanwhile are neither retried nor counted)
+	Pauses [][2]int64 `json:"pauses,omitempty"`
 }
 
 type TXOp struct {
